@@ -27,6 +27,10 @@ func (k msgServer) UpdateCyclelist(ctx context.Context, req *types.MsgUpdateCycl
 	if err := k.keeper.InitCycleListQuery(ctx, req.Cyclelist); err != nil {
 		return nil, err
 	}
+	// the position in the old list is meaningless for the new one (and out of range if it is shorter)
+	if err := k.keeper.CyclelistSequencer.Set(ctx, 0); err != nil {
+		return nil, err
+	}
 	queries := make([]string, len(req.Cyclelist))
 	for i, query := range req.Cyclelist {
 		queries[i] = hex.EncodeToString(query)
